@@ -97,12 +97,17 @@ def asan_preload():
   return a + " " + u
 
 
+def _fixture():
+  os.makedirs(os.path.join(TYPESHED, "stubs"), exist_ok=True)  # git keeps no empty dirs
+
+
 def ensure_env(asan=False):
   """Re-exec the current process with the environment checks need.
 
   PYTHONHASHSEED=0 (determinism), PYTHONPATH=/repo, TYPESHED_HOME=fixture,
   guard variable on, and for asan the LD_PRELOAD of the sanitizer runtimes.
   """
+  _fixture()
   want = {
       "PYTHONHASHSEED": os.environ.get("VERIF_HASHSEED", "0"),
       "TYPESHED_HOME": TYPESHED,
@@ -137,6 +142,7 @@ def load(asan=False):
   if _loaded is not None:
     return _loaded
   d = build_ext(asan=asan)
+  _fixture()
   if REPO not in sys.path:
     sys.path.insert(0, REPO)
   os.environ.setdefault("TYPESHED_HOME", TYPESHED)
